@@ -126,6 +126,7 @@ func SpecSkipBlanks(s string, i int) int {
 //@   requires 0 <= i && i <= len(s)
 //@   decreases len(s) - i
 //@   ensures i <= SpecSkipBlanks(s, i) && SpecSkipBlanks(s, i) <= len(s)
+
 func LemmaSkipBlanks(s string, i int) {
 	if i >= len(s) {
 		return
